@@ -29,6 +29,7 @@ THEOREMS = [
     "C13_periodic_rounded_algorithm_in_period_partial", "C13_periodic_binary64_correction_effective",
     "C13_periodic_unfixed_algorithm_refuted",
     "C13_axisymmetric_maps_to_radius", "C13_radius_unfixed_algorithm_refuted", "C13_vectors_rotated_by_toroidal_angle",
+    "C13_vectors_on_axis_and_everywhere",
     "C13_linspace_even_with_both_end_points", "C13_sampler_entry_is_function_at_grid_point",
     "C13_mask_independent_of_vertex_order", "C13_mask_is_point_in_polygon_partial",
 ]
@@ -132,13 +133,22 @@ def run(ctx):
         return ret[0]
     ret = [0.25]
     ctx.crumb({"stage": "routing wrappers"})
+    import itertools
+    Z2 = list(itertools.product([0.0, -0.0], repeat=2))
+    Z3 = list(itertools.product([0.0, -0.0, 1.5], repeat=3))
+
+    def with_mandatory(mand, n, draw):
+        """the mandatory argument tuples first (exact zeros / signed zeros / exact bounds ... : every tier, every seed),
+        then n random draws"""
+        return list(mand) + [draw() for _ in range(n)]
 
     # ---- swizzle / slice / iso ---------------------------------------------------------------------
     for s0 in range(3):
         for s1 in range(3):
             for s2 in range(3):
-                for _ in range(1 if quick else 6):
-                    x, y, z = edge_float(rng), edge_float(rng), edge_float(rng)
+                si = 9 * s0 + 3 * s1 + s2
+                for x, y, z in with_mandatory([Z3[si], Z3[(si + 13) % 27][::-1]], 1 if quick else 6,
+                                              lambda: (edge_float(rng), edge_float(rng), edge_float(rng))):
                     rec.clear()
                     ret[0] = ordinary_float(rng)
                     out = Swizzle3D(r3, (s0, s1, s2))(x, y, z)
@@ -149,8 +159,7 @@ def run(ctx):
                           {"shape": (s0, s1, s2), "args": hexl((x, y, z)), "received": hexl(got)},
                           len(rec) == 1 and same_tuple(got, want) and same_bits(out, ret[0]),
                           "Swizzle3D(f, shape)(x,y,z) == f(arg[shape[0]], arg[shape[1]], arg[shape[2]])")
-    for _ in range(12 * scale):
-        x, y = edge_float(rng), edge_float(rng)
+    for x, y in with_mandatory(Z2 + [(0.0, 1.5), (1.5, -0.0)], 12 * scale, lambda: (edge_float(rng), edge_float(rng))):
         rec.clear()
         ret[0] = ordinary_float(rng)
         out = Swizzle2D(r2)(x, y)
@@ -162,8 +171,7 @@ def run(ctx):
     names3 = {0: [0, "x", "X"], 1: [1, "y", "Y"], 2: [2, "z", "Z"]}
     for axis in (0, 1):
         for sel in names2[axis]:
-            for _ in range(2 * scale):
-                v, x = edge_float(rng), edge_float(rng)
+            for v, x in with_mandatory(Z2 + [(1.5, 0.0), (-0.0, 1.5)], 2 * scale, lambda: (edge_float(rng), edge_float(rng))):
                 rec.clear()
                 ret[0] = ordinary_float(rng)
                 out = Slice2D(r2, sel, v)(x)
@@ -175,8 +183,8 @@ def run(ctx):
                       "Slice2D(f, axis, v)(x) == f with v inserted at position axis")
     for axis in (0, 1, 2):
         for sel in names3[axis]:
-            for _ in range(2 * scale):
-                v, x, y = edge_float(rng), edge_float(rng), edge_float(rng)
+            for v, x, y in with_mandatory([(0.0, -0.0, 1.5), (-0.0, 0.0, -0.0), (1.5, 0.0, 0.0), (0.0, 0.0, 0.0)], 2 * scale,
+                                          lambda: (edge_float(rng), edge_float(rng), edge_float(rng))):
                 rec.clear()
                 ret[0] = ordinary_float(rng)
                 out = Slice3D(r3, sel, v)(x, y)
@@ -194,12 +202,12 @@ def run(ctx):
         return gret[0]
     gret = [0.75]
     for dim in (2, 3):
-        for _ in range(10 * scale):
-            args = tuple(edge_float(rng) for _ in range(dim))
+        mand = [t + (fv_, gv_) for t, fv_, gv_ in zip((Z2 if dim == 2 else Z3[:4] + Z3[9:13]), [0.0, -0.0, 1.5, -0.0] * 2, [-0.0, 0.0, 0.0, 1.5] * 2)]
+        for tup in with_mandatory(mand, 10 * scale, lambda: tuple(edge_float(rng) for _ in range(dim)) + (edge_float(rng, special=True), edge_float(rng, special=True))):
+            args = tup[:dim]
             rec.clear()
             grec.clear()
-            ret[0] = edge_float(rng, special=True)
-            gret[0] = edge_float(rng, special=True)
+            ret[0], gret[0] = tup[dim], tup[dim + 1]
             w = IsoMapper2D(r2, g1) if dim == 2 else IsoMapper3D(r3, g1)
             out = w(*args)
             gf, gg = (rec[-1] if rec else ()), (grec[-1] if grec else ())
@@ -247,9 +255,24 @@ def run(ctx):
             return hi
         return v
     for dim in (1, 2, 3):
-        for _ in range(16 * scale):
-            bs = [bounds() for _ in range(dim)]
-            args = tuple(clamp_arg(lo, hi) for lo, hi in bs)
+        mand = []
+        gi = 0
+        for lo_, hi_ in ((-1.0, 1.0), (0.0, 2.0), (-2.0, 0.0), (-0.0, 2.0), (-inf, inf), (0.0, inf), (-inf, 0.0)):
+            for a_ in (0.0, -0.0, lo_, hi_, math.nextafter(lo_, -inf), math.nextafter(lo_, inf), math.nextafter(hi_, -inf),
+                       math.nextafter(hi_, inf), 5e-324, -5e-324):
+                if math.isnan(a_):
+                    continue
+                pos = gi % dim
+                gi += 1
+                bs_ = [(-inf, inf)] * dim
+                ar_ = [(0.0, -0.0, 1.5)[(gi + t) % 3] for t in range(dim)]
+                bs_[pos], ar_[pos] = (lo_, hi_), a_
+                mand.append((bs_, tuple(ar_)))
+
+        def draw_clamp():
+            bs_ = [bounds() for _ in range(dim)]
+            return bs_, tuple(clamp_arg(lo, hi) for lo, hi in bs_)
+        for bs, args in with_mandatory(mand, 16 * scale, draw_clamp):
             flat = [b for pair in bs for b in pair]
             rec.clear()
             ret[0] = ordinary_float(rng)
@@ -264,11 +287,13 @@ def run(ctx):
                   {"bounds": hexl(flat), "args": hexl(args), "received": hexl(got)},
                   len(rec) == 1 and same_tuple(got, want) and same_bits(out, ret[0]),
                   "ClampInput(f, bounds)(x...) == f(clamp(x)...) with clamp = nearest point of [min, max]")
-        for _ in range(10 * scale):
-            lo, hi = bounds()
-            args = tuple(edge_float(rng) for _ in range(dim))
+        mand = []
+        for lo_, hi_ in ((-1.0, 1.0), (0.0, 2.0), (-2.0, 0.0), (-inf, inf), (0.0, inf), (-inf, 0.0)):
+            for a_ in (0.0, -0.0, lo_, hi_, math.nextafter(lo_, -inf), math.nextafter(hi_, inf)):
+                mand.append((lo_, hi_, (Z3[len(mand) % 27])[:dim], a_))
+        for lo, hi, args, fv_ in with_mandatory(mand, 10 * scale, lambda: bounds() + (tuple(edge_float(rng) for _ in range(dim)), None)):
             rec.clear()
-            ret[0] = clamp_arg(lo, hi)
+            ret[0] = clamp_arg(lo, hi) if fv_ is None else fv_
             cls = (ClampOutput1D, ClampOutput2D, ClampOutput3D)[dim - 1]
             out = cls((r1, r2, r3)[dim - 1], lo, hi)(*args)
             got = rec[-1] if rec else ()
@@ -282,7 +307,7 @@ def run(ctx):
 
     # ---- periodic ---------------------------------------------------------------------------------------------
     ctx.crumb({"stage": "periodic"})
-    n_per = 140 * scale
+    n_per = 100 * scale
 
     def vr1(x):
         rec.append((x,))
@@ -314,12 +339,19 @@ def run(ctx):
             for xh, ph in json.load(open(os.path.join(cdir, fn_))).get("periodic", []):
                 for w in range(6):
                     corpus.append((w, float.fromhex(xh), float.fromhex(ph)))
+    # mandatory points, every periodic wrapper: exact 0 and -0, the period itself, exact multiples of the period of both
+    # signs, the neighbours of 0 and of the period
+    for p_ in (1.0, 2 * math.pi, 0.1, 2.5):
+        for x_ in (0.0, -0.0, p_, -p_, 2 * p_, -2 * p_, 3 * p_, -3 * p_, 1024 * p_, -1024 * p_, math.nextafter(p_, 0), math.nextafter(p_, inf),
+                   -math.nextafter(p_, 0), 5e-324, -5e-324, p_ / 2):
+            for w in range(6):
+                corpus.append((w, x_, p_))
     for i in range(n_per + len(corpus)):
         xs, ps, kinds = [], [], []
         if i < len(corpus):
             w, x, p = corpus[i]
             cls, fn, dim = per_wrappers[w]
-            xs, ps, kinds = [x] * dim, [p] * dim, ["corpus"] * dim
+            xs, ps, kinds = [x] * dim, [p] * dim, ["corpus_or_mandatory"] * dim
         else:
             cls, fn, dim = per_wrappers[i % 6] if i % 3 else per_wrappers[0 if i % 2 else 3]
             for d in range(dim):
@@ -360,10 +392,11 @@ def run(ctx):
         sx, sy = (x > 0) - (x < 0), (y > 0) - (y < 0)
         if sy == 0 and sx > 0:
             return t == 0
-        if sy == 0 and sx < 0:
-            return pi_lo < abs(t) < pi_hi
+        yneg = math.copysign(1.0, y) < 0
+        if sy == 0 and (sx < 0 or (sx == 0 and math.copysign(1.0, x) < 0)):
+            return (-pi_hi < t < -pi_lo) if yneg else (pi_lo < t < pi_hi)      # libm: atan2(+-0, x <= -0) = +-pi
         if sy == 0:
-            return t == 0 or pi_lo < abs(t) < pi_hi
+            return t == 0
         if sx > 0:
             return 0 <= sy * t < pi_hi / 2          # atan2 may underflow to a zero
         lo, hi = (pi_lo / 2, pi_hi / 2) if sx == 0 else (pi_lo / 2, pi_hi)
@@ -377,13 +410,24 @@ def run(ctx):
     def vf3(r, p, z):
         rec.append((r, p, z))
         return vret[0]
-    n_ax = 160 * scale
-    for i in range(n_ax):
-        x, y, z, kind = gen_xyz(rng)
-        which = i % 4
+    # mandatory points (both tiers, every seed, every one of the four wrappers): exact zeros and signed zeros of
+    # each coordinate in all combinations, the axis, both coordinate axes, the branch cut, the diagonals,
+    # subnormal neighbours of zero
+    gx = [0.0, -0.0, 1.5, -1.5, 5e-324, -5e-324]
+    gy = [0.0, -0.0, 1.5, -1.5, 2.0, -2.0, 5e-324, -5e-324]
+    gz = [0.0, -0.0, 1.25, -3.5]
+    axis_pts = []
+    for ix, x_ in enumerate(gx):
+        for iy, y_ in enumerate(gy):
+            for w_ in range(4):
+                axis_pts.append((x_, y_, gz[(ix + iy + w_) % 4], "grid:" + ("axis" if x_ == 0 and y_ == 0 else "y_axis" if x_ == 0 else
+                                 "branch_cut" if y_ == 0 and x_ < 0 else "x_axis" if y_ == 0 else "diagonal" if abs(x_) == abs(y_) else "off_axis"), w_))
+    n_ax = 120 * scale
+    todo = axis_pts + [gen_xyz(rng) + (i % 4,) for i in range(n_ax)]
+    for i, (x, y, z, kind, which) in enumerate(todo):
         rec.clear()
         ret[0] = ordinary_float(rng)
-        v = (ordinary_float(rng), ordinary_float(rng), ordinary_float(rng))
+        v = (ordinary_float(rng) or 1.0, ordinary_float(rng) or -0.75, ordinary_float(rng))
         vret[0] = Vector3D(*v)
         name = ("AxisymmetricMapper", "CylindricalTransform", "VectorAxisymmetricMapper", "VectorCylindricalTransform")[which]
         if i % 20 == 0:
@@ -408,20 +452,39 @@ def run(ctx):
             spec = spec and quadrant_ok(x, y, phi) and same_bits(phi, math.atan2(y, x))
         if which < 2:
             spec = spec and same_bits(out, ret[0])
-        elif r > 2.0 ** -1000 and math.isfinite(r):      # the rotation is compared where r is relatively accurate
+        else:
+            # the returned vector, for EVERY point: finite whenever the wrapped function's vector is, and equal to
+            # that vector rotated by libm's atan2(y, x) (on the axis: 0 for x = +0, +-pi for x = -0)
             o = (out.x, out.y, out.z)
-            checks.append("chk_rot %s %s %s (%s, %s, %s) (%s, %s, %s)" % (
-                qlit(x), qlit(y), qlit(r), qlit(v[0]), qlit(v[1]), qlit(v[2]), qlit(o[0]), qlit(o[1]), qlit(o[2])))
-            meta.update({"f_vector": hexl(v), "out_vector": hexl(o)})
-            h = math.hypot(x, y)
-            c, s = x / h, y / h
-            tol = 1e-12 * max(abs(t) for t in v)
-            spec = spec and abs(o[0] - (c * v[0] - s * v[1])) <= tol and abs(o[1] - (s * v[0] + c * v[1])) <= tol and o[2] == v[2]
+            meta.update({"f_vector": hexl(v), "out_vector": hexl(o), "out_repr": repr(o)})
+            if not all(math.isfinite(t) for t in o):
+                checks.append("false")
+                spec = False
+                meta["vector_claim"] = "%s(f)(%r, %r, %r) = %r is not finite although f returned %r" % (name, x, y, z, o, v)
+            else:
+                on_axis = (x == 0 and y == 0)
+                k = 0 if (on_axis or math.hypot(x, y) > 2.0 ** -800) else 1000
+                xs_, ys_ = math.ldexp(x, k), math.ldexp(y, k)
+                rho = r if k == 0 else math.hypot(xs_, ys_)
+                checks.append("chk_rot %d %s %s %s %s %s (%s, %s, %s) (%s, %s, %s)" % (
+                    k, fb(x), fb(y), fb(xs_), fb(ys_), fb(rho), qlit(v[0]), qlit(v[1]), qlit(v[2]), qlit(o[0]), qlit(o[1]), qlit(o[2])))
+                if on_axis:
+                    c, s_ = (-1.0, 0.0) if math.copysign(1.0, x) < 0 else (1.0, 0.0)
+                    tol = 0.0 if c > 0 else 1e-12 * max(abs(t) for t in v)
+                else:
+                    h = math.hypot(xs_, ys_)
+                    c, s_ = xs_ / h, ys_ / h
+                    tol = 1e-12 * max(abs(t) for t in v)
+                okv = abs(o[0] - (c * v[0] - s_ * v[1])) <= tol and abs(o[1] - (s_ * v[0] + c * v[1])) <= tol and o[2] == v[2]
+                if not okv:
+                    meta["vector_claim"] = "%s(f)(%r, %r, %r) = %r but f returned %r, which rotated by the toroidal angle atan2(y, x) = %r is (%r, %r, %r)" % (
+                        name, x, y, z, o, v, math.atan2(y, x), c * v[0] - s_ * v[1], s_ * v[0] + c * v[1], v[2])
+                spec = spec and okv
         if not ok_r:
             meta["radius_claim"] = "%s evaluates the wrapped function at r = %r for (x, y) = (%r, %r); sqrt(x^2+y^2) = %r" % (
                 name, r, x, y, math.hypot(x, y))
         C.add("radius/" + ("scalar" if which < 2 else "vector"), kind, "(" + " && ".join(checks) + ")", meta, spec,
-              meta.get("radius_claim") or "%s: wrapped function evaluated at (sqrt(x^2+y^2)%s, z), vector rotated by the toroidal angle" % (
+              meta.get("radius_claim") or meta.get("vector_claim") or "%s: wrapped function evaluated at (sqrt(x^2+y^2)%s, z), vector rotated by the toroidal angle" % (
                   name, ", atan2(y,x)" if which % 2 else ""))
 
     # ---- polygon masks ---------------------------------------------------------------------------------------------
@@ -591,7 +654,7 @@ def run(ctx):
                              1 for m in C.meta if m["family"].startswith("radius") and m["cls"] in ("huge", "tiny"))},
         "tolerance": {"routing, clamp, periodic remainder": "bit for bit (binary64)",
                       "radius (libm hypot) vs exact sqrt(x^2+y^2)": "max(2^-51 relative, 2^-1074 absolute), finite result required, whole finite range, decided exactly on the squares",
-                      "periodic vs exact reduction": "2^-52 * period", "rotated vector": "2^-40 of the largest component (libm cos/sin, rotate_z)",
+                      "periodic vs exact reduction": "2^-52 * period", "rotated vector": "2^-40 of the largest component (libm cos/sin, rotate_z); exact on the axis with x = +0 (no rotation); subnormal-near-zero points are scaled by 2^1000 exactly before forming (x/r, y/r)",
                       "linspace interior points": "2^-48 of max(|a|,|b|); end points exact", "mask": "exact boolean at points with margin >= 2^-20 size",
                       "constructor errors": "exact"},
         "partial": ["the range theorem 0 <= r < period for the binary64 algorithm is proved for an abstract monotone rounding, not derived "
